@@ -148,7 +148,7 @@ def run(tier, seed):
     for (b, kind, arg), (d, ex), (ob, err, r), m in zip(jobs, meta, res, mo):
         ck.count(); kinds[kind] = kinds.get(kind, 0) + 1
         for p in ex['parts']: optc[p[0]] = optc.get(p[0], 0) + 1
-        case = {'doc': {k: d[k] for k in ('stories', 'comments', 'next_uid', 'rpr_table')}, 'extras': {k: (v if k != 'parts' else [[p[0], p[1], p[3]] for p in v]) for k, v in ex.items()}, 'session': [kind, arg]}
+        case = {'doc': A.doc_core(d), 'extras': {k: (v if k != 'parts' else [[p[0], p[1], p[3]] for p in v]) for k, v in ex.items()}, 'session': [kind, arg]}
         if err:
             # an engine failure is judged by C08; here only note it unless it is the package layer that fails
             if 'edits' != kind or 'XmlPart' in err or 'part' in err.lower(): ck.violation('oracle', case, 'session raised ' + err)
